@@ -435,6 +435,10 @@ class NetworkMixin(RadioMixin):
                 # pass it along
                 self._write(self.frame_buf.header.to_node, TX_ROUTED)
                 return (True, 0)
+        elif self.frame_buf.header.to_node == NETWORK_MULTICAST_ADDR:
+            # multicast not enabled: this is not a frame to route (it reached us only
+            # because the master's pipe 0 doubles as the level 0 address)
+            msg_t = 0
         elif self._addr != NETWORK_DEFAULT_ADDR:  # multicast not enabled
             # pass it along
             self._write(self.frame_buf.header.to_node, TX_ROUTED)
